@@ -143,6 +143,46 @@ impl Parser {
     }
 }
 
+/// Verification hook (compiled only with `--cfg icy_engine_verif`): read-only view of the command lexer.
+#[cfg(icy_engine_verif)]
+pub struct VerifSnapshot {
+    /// "Default", "GotRipStart", "ReadCommand", "ReadParams", "SkipEOL" or "EndRip"
+    pub state: &'static str,
+    /// command level of `ReadCommand` (0, 1 or 9), 0 otherwise
+    pub level: usize,
+    pub parameter_state: i32,
+    pub has_command: bool,
+    pub rip_counter: i32,
+    pub recorded: usize,
+}
+
+#[cfg(icy_engine_verif)]
+impl Parser {
+    pub fn verif_snapshot(&self) -> VerifSnapshot {
+        let (state, level) = match self.state {
+            State::Default => ("Default", 0),
+            State::GotRipStart => ("GotRipStart", 0),
+            State::ReadCommand(l) => ("ReadCommand", l),
+            State::ReadParams => ("ReadParams", 0),
+            State::SkipEOL => ("SkipEOL", 0),
+            State::EndRip => ("EndRip", 0),
+        };
+        VerifSnapshot {
+            state,
+            level,
+            parameter_state: self.parameter_state,
+            has_command: self.command.is_some(),
+            rip_counter: self.rip_counter,
+            recorded: self.rip_commands.len(),
+        }
+    }
+
+    /// RIP text of the `i`-th recorded command (needs `record_rip_commands`).
+    pub fn verif_recorded(&self, i: usize) -> Option<String> {
+        self.rip_commands.get(i).map(|c| c.to_rip_string())
+    }
+}
+
 static RIP_TERMINAL_ID: &str = "RIPSCRIP015410\0";
 
 impl Parser {
